@@ -3,6 +3,7 @@ package main
 import (
 	"fmt"
 	"go/constant"
+	"go/token"
 	"sort"
 	"strings"
 
@@ -415,6 +416,29 @@ func rulePDF417Encoder(c *Ctx) {
 					c.Check("C13-PDF-PADDING", "pdf417.getPadding/loop-start", s.call.Pos(), init == 0, "0", fmt.Sprint(init))
 					c.expectCondC("C13-PDF-PADDING", "pdf417.getPadding/count", s.call.Pos(), cAnd(reach, cond), MustRefCond(T+"%cols > 0 && i < cols - "+T+"%cols"))
 				}
+				// built by the library: slices.Repeat of the one-element list [pad codeword]
+				eachInstr(fn, func(b *ssa.BasicBlock, ins ssa.Instruction) {
+					call, ok := ins.(*ssa.Call)
+					if !ok || found {
+						return
+					}
+					cal := call.Common().StaticCallee()
+					if cal == nil || cal.Pkg != nil && cal.Pkg.Pkg.Path() != "slices" || !strings.HasPrefix(cal.Name(), "Repeat") || len(call.Common().Args) != 2 {
+						return
+					}
+					if o := cal.Origin(); o == nil || o.Pkg == nil || o.Pkg.Pkg.Path() != "slices" {
+						return
+					}
+					el := variadicElems(call.Common().Args[0])
+					if len(el) != 1 || el[0] == nil {
+						return
+					}
+					found = true
+					k, isK := n.Norm(el[0]).IsConst()
+					c.Check("C13-PDF-PADDING", "pdf417.getPadding/value", call.Pos(), isK && k == pc, fmt.Sprint(pc), n.Norm(el[0]).String())
+					c.expectPoly("C13-PDF-PADDING", "pdf417.getPadding/count", call.Pos(), n, call.Common().Args[1], "cols - "+T+"%cols")
+					c.expectCond("C13-PDF-PADDING", "pdf417.getPadding/iff", call.Pos(), n.ReachCond(fn, nil, call.Block()), T+"%cols > 0")
+				})
 				if !found {
 					c.Check("C13-PDF-PADDING", "pdf417.getPadding/make", fn.Pos(), false, "padding slice", "none")
 				}
@@ -451,35 +475,61 @@ func rulePDF417Encoder(c *Ctx) {
 			}
 		}
 	}
-	if fn := c.theFunc(R6, "pdf417.renderBarcode"); fn != nil {
+	if fn := c.theFunc(R6, "pdf417.renderBarcode"); fn != nil && len(fn.Params) == 1 {
 		n := NewNormer(c.P)
 		n.BindParams(fn, "codes")
 		addBits := callsTo(fn, c.P.Func("utils.(*BitList).AddBits"))
+		// the row: element of codes at the index of the outer loop
+		var rowV *ssa.UnOp
+		var outerHdr *ssa.BasicBlock
+		eachInstr(fn, func(b *ssa.BasicBlock, ins ssa.Instruction) {
+			if ld, ok := ins.(*ssa.UnOp); ok && ld.Op == token.MUL {
+				if ia, ok := ld.X.(*ssa.IndexAddr); ok && ia.X == ssa.Value(fn.Params[0]) {
+					for _, blk := range fn.Blocks {
+						if idx, _, init, ok := loopIndex(blk); ok && init == 0 && idx == ia.Index {
+							rowV, outerHdr = ld, blk
+						}
+					}
+				}
+			}
+		})
+		if rowV == nil {
+			c.Undecided(R6, "pdf417.renderBarcode/rows", fn.Pos(), "no loop over the rows of the codeword matrix")
+			return
+		}
+		n.Bind[rowV] = "row"
+		if idx, _, _, ok := loopIndex(outerHdr); ok {
+			n.Bind[idx] = "i"
+		}
+		c.expectCond(R6, "pdf417.renderBarcode/rows", rowV.Pos(), n.LoopCond(outerHdr), "i < len(codes)")
+		peeled := fmt.Sprintf("slice(row,,%s)[j]", MustRef("len(row) - 1"))
+		lastElem := fmt.Sprintf("row[%s]", MustRef("len(row) - 1"))
 		// module count per codeword: alternatives (17 | 18) with their conditions, whether written as
-		// two calls or as one call with a selected width
+		// two calls or as one call with a selected width; or the stop pattern taken out of the column
+		// loop (columns 0..len-2 with 17 modules, then column len-1 with 18)
 		cond18, cond17 := cFalse, cFalse
 		var hdr *ssa.BasicBlock
+		var after []*ssa.Call
 		bad := ""
 		for _, call := range addBits {
-			if hdr == nil {
-				for d := call.Block(); d != nil; d = d.Idom() {
-					if idx, _, init, ok := loopIndex(d); ok && init == 0 {
-						// innermost counting loop: the column loop
-						n.Bind[idx] = "j"
-						hdr = d
-						break
-					}
-				}
-				if ld, ok := call.Common().Args[1].(*ssa.UnOp); ok {
-					if ia, ok := ld.X.(*ssa.IndexAddr); ok {
-						n.Bind[ia.X] = "row"
-					}
+			var inner *ssa.BasicBlock
+			for d := call.Block(); d != nil && d != outerHdr; d = d.Idom() {
+				if idx, _, init, ok := loopIndex(d); ok && init == 0 && inLoopBody(d, call.Block()) {
+					// innermost counting loop: the column loop
+					n.Bind[idx] = "j"
+					inner = d
+					break
 				}
 			}
-			if hdr == nil {
-				bad = "column loop not found"
+			if inner == nil {
+				after = append(after, call)
+				continue
+			}
+			if hdr != nil && hdr != inner {
+				bad = "more than one column loop"
 				break
 			}
+			hdr = inner
 			reach := n.ReachCond(fn, hdr.Succs[0], call.Block())
 			for _, cs := range n.valueCases(fn, hdr.Succs[0], call.Common().Args[2], 0) {
 				k, ok := cs.val.IsConst()
@@ -492,12 +542,55 @@ func rulePDF417Encoder(c *Ctx) {
 					bad = "module count " + cs.val.String()
 				}
 			}
+			elem := n.Norm(call.Common().Args[1]).String()
+			if len(after) == 0 && elem != "row[j]" && elem != peeled {
+				bad = "codeword drawn is " + elem
+			}
 		}
-		if bad != "" || hdr == nil {
+		switch {
+		case bad != "" || hdr == nil:
 			c.Check(R6, "pdf417.renderBarcode/widths", fn.Pos(), false, "17 modules per codeword, 18 for the stop pattern", orOK(bad))
-		} else {
+		case len(after) == 0:
+			elemOK := true
+			for _, call := range addBits {
+				if n.Norm(call.Common().Args[1]).String() != "row[j]" {
+					elemOK = false
+				}
+			}
+			c.Check(R6, "pdf417.renderBarcode/codeword", fn.Pos(), elemOK, "row[j]", fmt.Sprint(elemOK))
+			c.expectCond(R6, "pdf417.renderBarcode/columns", fn.Pos(), n.LoopCond(hdr), "j < len(row)")
 			c.expectCond(R6, "pdf417.renderBarcode/last-column", fn.Pos(), cond18, "j == len(row) - 1")
 			c.expectCond(R6, "pdf417.renderBarcode/other-columns", fn.Pos(), cond17, "j != len(row) - 1")
+		case len(after) == 1:
+			// peeled form
+			last := after[0]
+			elemOK := true
+			for _, call := range addBits {
+				if call != last && n.Norm(call.Common().Args[1]).String() != peeled {
+					elemOK = false
+				}
+			}
+			c.Check(R6, "pdf417.renderBarcode/codeword", fn.Pos(), elemOK, "row[:len(row)-1][j]", fmt.Sprint(elemOK))
+			c.expectCond(R6, "pdf417.renderBarcode/columns", fn.Pos(), n.LoopCond(hdr), "j < len(row) - 1")
+			c.expectCond(R6, "pdf417.renderBarcode/other-columns", fn.Pos(), cond17, "true")
+			c.Check(R6, "pdf417.renderBarcode/other-columns-width", fn.Pos(), cond18.Kind == CFalse, "17 modules inside the column loop", cond18.String())
+			w, isK := n.Norm(last.Common().Args[2]).IsConst()
+			el := n.Norm(last.Common().Args[1]).String()
+			// the conditions before the column loop and after it (the loop itself always ends)
+			reach := cFalse
+			if ex := loopExitBlock(hdr); ex != nil && len(hdr.Preds) == 2 {
+				pre := hdr.Preds[0]
+				if hdr.Dominates(pre) {
+					pre = hdr.Preds[1]
+				}
+				reach = cAnd(n.ReachCond(fn, rowV.Block(), pre), n.ReachCond(fn, ex, last.Block()))
+			}
+			e1, _ := CondEquivalent(reach, MustRefCond("len(row) != 0"))
+			e2, _ := CondEquivalent(reach, cTrue)
+			okLast := isK && w == 18 && el == lastElem && (e1 || e2) && hdr.Dominates(last.Block()) && !inLoopBody(hdr, last.Block())
+			c.Check(R6, "pdf417.renderBarcode/last-column", last.Pos(), okLast, "after the column loop: row[len(row)-1] with 18 modules (for every non-empty row)", fmt.Sprintf("%s with %s modules when %s", el, n.Norm(last.Common().Args[2]), reach))
+		default:
+			c.Check(R6, "pdf417.renderBarcode/widths", fn.Pos(), false, "17 modules per codeword, 18 for the stop pattern", fmt.Sprintf("%d AddBits calls outside the column loop", len(after)))
 		}
 	}
 }
